@@ -92,6 +92,7 @@ Print Assumptions C14_fee_after_revert.
     nonce) computes exactly these balances and receipts on native transactions, for every
     configuration of the transfer / fee flags, provided journal entries are not lost *)
 Theorem C14_exec_refines_fees : forall c, d_stale_changer c = false ->
+  d_prev_from_memory c = false -> d_revert_drops_tombstone c = false ->
   forall e ts ns idx s b, beq (bal s) b ->
   let '(s', rcs, _) := apply_txs c e idx s (to_txs e ts ns) in
   let '(b', oks, _) := apply_block (x_fees c) e b ts in
@@ -100,7 +101,8 @@ Proof. exact native_block_refines. Qed.
 Print Assumptions C14_exec_refines_fees.
 
 Theorem C14_exec_conservation : forall c e dom ts ns s pre,
-  d_stale_changer c = false -> x_fees c = fcfg_fixed ->
+  d_stale_changer c = false -> d_prev_from_memory c = false -> d_revert_drops_tombstone c = false ->
+  x_fees c = fcfg_fixed ->
   admins e <> [] -> NoDup dom -> covers dom e ts ->
   let '(s', rcs, _) := exec_block c e s pre (to_txs e ts ns) in
   let '(_, _, g) := apply_block fcfg_fixed e (bal s) ts in
